@@ -21,7 +21,9 @@ WideKinds == {"int32", "int64", "uint32", "uint64", "float32"}
 AllKinds == Kinds \cup WideKinds \cup {"any"}
 Locs == {"path", "query", "header", "cookie", "body"}
 Modes == {"required", "optional", "default"}
-Rules == {"none", "min", "max", "xmin", "xmax", "minlen", "maxlen", "enum", "pattern", "format", "cminlen", "cmaxlen"}
+Rules == {"none", "min", "max", "xmin", "xmax", "minlen", "maxlen", "enum", "pattern", "format", "cminlen", "cmaxlen",
+          \* two rules on one attribute: both inclusive / both exclusive bounds, both lengths
+          "range", "xrange", "lenrange"}
 Nests == {"direct", "elem", "mapkey", "mapval", "alias", "nested",
           \* two levels: a user type holding a map / list whose keys / elements carry the rule, and a list / map of user types
           "nested_mapkey", "nested_elem", "elem_nested", "mapval_nested",
@@ -45,11 +47,11 @@ WFAttr(a) ==
   /\ (a.loc \in {"query", "header"} => a.nest \in {"direct", "alias", "elem"} /\ a.kind # "bytes")
   /\ (a.nest \in {"mapkey", "mapval", "nested"} \cup Deep => a.loc = "body")
   /\ (a.nest \in {"mapkey", "nested_mapkey", "mapkey_alias"} => a.kind \in {"string", "int"})
-  /\ (a.kind = "bytes" => a.nest = "direct" /\ a.rule \in {"none", "minlen", "maxlen"})
+  /\ (a.kind = "bytes" => a.nest = "direct" /\ a.rule \in {"none", "minlen", "maxlen", "lenrange"})
   /\ (a.kind = "bool" => a.rule = "none")
   /\ (a.kind = "any" => a.loc = "body" /\ a.nest \in {"direct", "elem", "mapval", "nested"} /\ a.rule = "none" /\ a.mode # "default")
-  /\ (a.rule \in {"min", "max", "xmin", "xmax"} => a.kind \in NumKinds)
-  /\ (a.rule \in {"minlen", "maxlen"} => a.kind \in {"string", "bytes"})
+  /\ (a.rule \in {"min", "max", "xmin", "xmax", "range", "xrange"} => a.kind \in NumKinds)
+  /\ (a.rule \in {"minlen", "maxlen", "lenrange"} => a.kind \in {"string", "bytes"})
   /\ (a.rule \in {"pattern", "format"} => a.kind = "string")
   /\ (a.rule = "enum" => a.kind \in {"int", "string"})
   /\ (a.rule \in {"cminlen", "cmaxlen"} => a.nest \in {"elem", "mapval"})
@@ -118,6 +120,9 @@ RuleOK(a, v) ==
     [] a.rule = "max"     -> Num2(v) <= 2 * Hi
     [] a.rule = "xmin"    -> Num2(v) > 2 * Lo
     [] a.rule = "xmax"    -> Num2(v) < 2 * Hi
+    [] a.rule = "range"   -> Num2(v) >= 2 * Lo /\ Num2(v) <= 2 * Hi
+    [] a.rule = "xrange"  -> Num2(v) > 2 * Lo /\ Num2(v) < 2 * Hi
+    [] a.rule = "lenrange" -> v.n >= Lo /\ v.n <= Hi
     [] a.rule = "minlen"  -> v.n >= Lo
     [] a.rule = "maxlen"  -> v.n <= Hi
     [] a.rule = "enum"    -> EnumOK(v)
@@ -128,8 +133,8 @@ RuleOK(a, v) ==
     [] OTHER -> TRUE
 \* the error name a violation of the rule is reported under
 RuleErr(a) ==
-  CASE a.rule \in {"min", "max", "xmin", "xmax"} -> "invalid_range"
-    [] a.rule \in {"minlen", "maxlen", "cminlen", "cmaxlen"} -> "invalid_length"
+  CASE a.rule \in {"min", "max", "xmin", "xmax", "range", "xrange"} -> "invalid_range"
+    [] a.rule \in {"minlen", "maxlen", "cminlen", "cmaxlen", "lenrange"} -> "invalid_length"
     [] a.rule = "enum" -> "invalid_enum_value"
     [] a.rule = "pattern" -> "invalid_pattern"
     [] a.rule = "format" -> "invalid_format"
